@@ -6222,6 +6222,17 @@ impl Deserialize for bit_vec::BitVec<u32> {
         if numbytes & (1 << 63) != 0 {
             //New format
             numbytes &= !(1 << 63);
+            // Both values come from the (possibly corrupt) input. The number of bits must be
+            // backed by the buffer, otherwise 'set_len' below would expose memory outside of it.
+            // (the buffer is read as whole 32 bit words)
+            match (numbytes / 4).checked_mul(32) {
+                Some(maxbits) if numbits <= maxbits => {}
+                _ => {
+                    return Err(SavefileError::GeneralError {
+                        msg: "corrupt stream: BitVec length exceeds its buffer".to_string(),
+                    })
+                }
+            }
             let mut ret = bit_vec::BitVec::with_capacity(numbytes * 8);
             unsafe {
                 let num_words = numbytes / 4;
@@ -6388,6 +6399,17 @@ impl Deserialize for bit_vec08::BitVec<u32> {
         if numbytes & (1 << 63) != 0 {
             //New format
             numbytes &= !(1 << 63);
+            // Both values come from the (possibly corrupt) input. The number of bits must be
+            // backed by the buffer, otherwise 'set_len' below would expose memory outside of it.
+            // (the buffer is read as whole 32 bit words)
+            match (numbytes / 4).checked_mul(32) {
+                Some(maxbits) if numbits <= maxbits => {}
+                _ => {
+                    return Err(SavefileError::GeneralError {
+                        msg: "corrupt stream: BitVec length exceeds its buffer".to_string(),
+                    })
+                }
+            }
             let mut ret = bit_vec08::BitVec::with_capacity(numbytes * 8);
             unsafe {
                 let num_words = numbytes / 4;
